@@ -1,6 +1,7 @@
 (* C08 — Indexing never crashes on any file and never silently drops a broken one.
    The listener model runs on ANY parse tree (recovered ones included). *)
-From Zorg Require Import Base.PyStr Base.Res Base.Dates Model.FileListener Model.Witness Proofs.FileListenerFacts.
+From Zorg Require Import Base.PyStr Base.Res Base.Dates Model.FileListener Model.Witness Proofs.FileListenerFacts
+  Model.Whitelist Proofs.WhitelistFacts.
 
 (* Whatever tree the parser's error recovery produces: if the parser reported a
    syntax error, no note of the page is ever indexed (never a partial page) ... *)
@@ -12,6 +13,30 @@ Proof. exact errors_no_notes. Qed.
 Theorem C08_valid_not_flagged : forall today t pg,
   listen today false t = Ok pg -> p_has_errors pg = false.
 Proof. exact no_errors_not_flagged. Qed.
+
+(* `db create` / `db reindex` refuse a flagged page unless it is whitelisted - by NAME (a line of the whitelist
+   file), for any number of pages in any order; an accepted `db create` rewrites the whitelist to exactly the
+   flagged pages.  pages = (relative path, Page.has_errors) in processing order. *)
+Theorem C08_create_refuses_unlisted : forall update old_text pages,
+  (exists p, In (p, true) pages /\ mem_str p (wl_lines old_text) = false /\ update = false) ->
+  create_wl update old_text pages = Exn (S "RuntimeError").
+Proof. exact create_decision. Qed.
+
+Theorem C08_create_accepts_listed : forall update old_text pages,
+  (forall p, In (p, true) pages -> mem_str p (wl_lines old_text) = true \/ update = true) ->
+  create_wl update old_text pages = Ok (wl_text (map fst (filter snd pages))).
+Proof. exact create_accepts. Qed.
+
+Theorem C08_reindex_refuses_unlisted : forall old_text pages p,
+  In (p, true) pages -> mem_str p (wl_lines old_text) = false ->
+  reindex_wl old_text pages = Exn (S "RuntimeError").
+Proof. exact reindex_refuses. Qed.
+
+Theorem C08_reindex_accepts_listed : forall old_text pages,
+  (forall p, In (p, true) pages -> mem_str p (wl_lines old_text) = true) ->
+  NoDup (map fst pages) ->
+  exists l, reindex_wl old_text pages = Ok (wl_text l).
+Proof. exact reindex_accepts. Qed.
 
 (* REFUTED (known findings): the full statement says compilation never raises and
    a page with syntax errors is always flagged.  Witnesses, on trees exported
@@ -34,6 +59,10 @@ Proof. eexists. split; [vm_compute; reflexivity|split; reflexivity]. Qed.
 
 Print Assumptions C08_errors_index_nothing.
 Print Assumptions C08_valid_not_flagged.
+Print Assumptions C08_create_refuses_unlisted.
+Print Assumptions C08_create_accepts_listed.
+Print Assumptions C08_reindex_refuses_unlisted.
+Print Assumptions C08_reindex_accepts_listed.
 Print Assumptions C08_silent_drop_refuted.
 Print Assumptions C08_invalid_date_refuted.
 Print Assumptions C08_empty_bullet_refuted.
